@@ -74,6 +74,34 @@ def gen(rng, tier):
             yield {'k': 'rbp', 'form': form, 'trajs': trajs, 'alpha': akind}
         else:
             yield {'k': 'unique', 'form': form, 'trajs': trajs, 'alpha': akind}
+    for _ in range(G.budget(160) if tier == 'quick' else 4000):
+        # narrow integer arrays whose label span exceeds the type's maximum; zero-length trajectories
+        # at the front, in the middle and at the END of a list of arrays
+        dtype = rng.choice(['int8', 'int8', 'int16', 'uint8', 'int32'])
+        lo, hi = {'int8': (-128, 127), 'int16': (-32768, 32767), 'uint8': (0, 255), 'int32': (-70000, 70000)}[dtype]
+        k = rng.randint(2, 6)
+        labs = sorted(set([rng.choice([lo, lo + 1, lo + 5]), rng.choice([hi, hi - 1, hi - 3])] + [rng.randint(lo, hi) for _ in range(k)]))
+        form = rng.choice(['arr1', 'arr2', 'loa', 'loa'])
+        trajs = G.trajset(rng, labs, equal=(form == 'arr2'))
+        if form == 'arr1':
+            trajs = trajs[:1]
+        if form == 'loa' and rng.random() < 0.6:
+            pos = rng.choice(['end', 'end', 'front', 'middle', 'both'])
+            if pos in ('end', 'both'):
+                trajs = trajs + [[]] * rng.randint(1, 2)
+            if pos in ('front', 'both'):
+                trajs = [[]] + trajs
+            if pos == 'middle':
+                trajs = trajs[:1] + [[]] + trajs[1:]
+        present = sorted({v for t in trajs for v in t})
+        r = rng.random()
+        if r < 0.7:
+            old, new = _maps(rng, present[0], present[-1], present)
+            if rng.random() < 0.7:      # keep the data minimum the overall minimum
+                new = [max(v, present[0]) for v in new]
+            yield {'k': 'shift', 'form': form, 'trajs': trajs, 'old': old, 'new': new, 'alpha': 'narrow-' + dtype, 'dtype': dtype}
+        else:
+            yield {'k': rng.choice(['rbi', 'rbp', 'unique']), 'form': form, 'trajs': trajs, 'alpha': 'narrow-' + dtype, 'dtype': dtype}
     if tier == 'thorough':
         vals = [-1, 0, 2, 3]
         for L in range(1, 7):
@@ -126,7 +154,7 @@ def shrink(case):
 def impl(case):
     import msmhelper as mh
     from implutil import build, canon
-    data = build(case['form'], case['trajs'])
+    data = build(case['form'], case['trajs'], dtypes=[case['dtype']] if case.get('dtype') else None)
     k = case['k']
 
     def intact():
